@@ -48,7 +48,7 @@ const AT: Attr = Attr { prop: "C07", data: "C07-I1", other_prop: "C07", other: "
 pub fn execute(scn: &Scn, opts: &ExecOpts) -> Outcome {
     let mut out = Outcome::default();
     let scratch = Scratch::new("r0");
-    let root2 = if matches!(scn.roller, RollerSpec::Fixed { pat: PatKind::SecondMount, .. }) {
+    let root2 = if matches!(scn.roller, RollerSpec::Fixed { pat: PatKind::SecondMount | PatKind::DirSplit, .. }) {
         fsutil::second_mount_base().map(|b| {
             let p = b.join("r0");
             let _ = fs::remove_dir_all(&p);
